@@ -314,6 +314,108 @@ def c10_subsequence(tr, origin, key, writer):
     return out
 
 
+def c15_snapshot_applied(tr, origin):
+    """By the end of the frame in which a client observes InitialSyncFinished its synchronized entities,
+    component values and parent links equal the host's — checked for joins during which no peer
+    changes anything (so "the host's snapshot" is the host's current world)."""
+    out = []
+    host = None
+    prev_fin = {}
+    quiet_since = {}          # client -> True while nothing was changed since its setup
+    host_fresh = False        # the host has run a frame since the last operation
+    for ev in tr['events']:
+        if ev[0] == 'op':
+            p, w = ev[1], ev[2]
+            if w[0] not in ('setup', 'reg', 'switches'):
+                host_fresh = False
+            if w[0] == 'setup':
+                quiet_since[p] = True
+            elif w[0] in ('spawn', 'despawn', 'write', 'parent', 'mark', 'excl', 'skin', 'appcmd', 'addasset', 'removetransports', 'promote', 'reconnect'):
+                for q in quiet_since:
+                    quiet_since[q] = False
+        elif ev[0] == 'frame':
+            f = ev[1]
+            if f.panic or not f.st:
+                continue
+            if f.peer == 0:
+                host = f
+                host_fresh = True
+                continue
+            fin = int(f.st.get('fin', '0'))
+            if fin > prev_fin.get(f.peer, 0) and quiet_since.get(f.peer) and host is not None and host_fresh and f.st.get('client') == 'C':
+                def world(fr):
+                    wv = {}
+                    for u, l in sync_entities(fr).items():
+                        d = l[0]
+                        wv[u] = tuple(sorted((t, v) for t, v in d['compmap'].items() if t < 100))
+                    return wv
+                hw, cw = world(host), world(f)
+                if hw != cw:
+                    missing = sorted(set(hw) - set(cw))
+                    out.append(dict(signature='finished-before-snapshot-applied', origin=origin,
+                                    what='peer %d observed InitialSyncFinished in a frame at whose end it holds %d of the host\'s %d synchronized entities%s' % (
+                                        f.peer, len(set(hw) & set(cw)), len(hw), (' (missing uuids %s)' % missing[:6]) if missing else ' (component values differ)')))
+                    return out
+            prev_fin[f.peer] = fin
+    return out
+
+
+def c17_present_untouched(tr, origin):
+    """a GlobalTransform the application put on an entity itself (written with `write h 100 v`) keeps
+    its value in every later frame of that peer: the companion fix leaves present companions alone"""
+    out = []
+    own = {}            # (peer, handle) -> value
+    for ev in tr['events']:
+        if ev[0] == 'op' and ev[2][0] == 'write' and ev[2][2] == '100':
+            own[(ev[1], ev[2][1])] = ev[2][3]
+        elif ev[0] == 'frame':
+            f = ev[1]
+            for ident, d in f.ents.items():
+                u = d.get('sync')
+                for (p, h), v in own.items():
+                    if p == f.peer and u == h and 100 in d['compmap'] and d['compmap'][100] != v:
+                        out.append(dict(signature='present-companion-overwritten', origin=origin,
+                                        what='peer %d entity of uuid %s: the GlobalTransform the application wrote (%s) reads %s after a later frame' % (p, h, v, d['compmap'][100])))
+                        return out
+    return out
+
+
+def c09_tight(tr, origin):
+    """Histories of non-conflicting operations in a session whose peers all joined before the first
+    operation: a local change costs at most one message per connected client (C05_messages_per_operation,
+    the value and entity counterparts: to the host, then relayed to the others; or from the host to
+    everybody), nothing is ever sent back. Counted over the whole run."""
+    n = tr['npeers']
+    seen_op = False
+    for ev in tr['events']:
+        if ev[0] == 'op':
+            w = ev[2]
+            if w[0] == 'setup' and seen_op:
+                return []                      # a late joiner: snapshots are not counted here
+            if w[0] in ('spawn', 'write', 'parent', 'despawn', 'mark', 'skin', 'addasset', 'excl', 'appcmd'):
+                seen_op = True
+    clients = n - 1
+    parents = sum(1 for ev in tr['events'] if ev[0] == 'op' and ev[2][0] == 'parent')
+    writes = sum(1 for ev in tr['events'] if ev[0] == 'op' and (ev[2][0] == 'write' or (ev[2][0] == 'appcmd' and ev[2][2] == 'insert') or ev[2][0] == 'skin'))
+    writes += sum(len(ev[2]) - 3 for ev in tr['events'] if ev[0] == 'op' and ev[2][0] == 'spawn')
+    got_par = got_comp = 0
+    for ev in tr['events']:
+        if ev[0] == 'frame':
+            for frm, m in ev[1].rcv:
+                if m[0] == 'parented':
+                    got_par += 1
+                elif m[0] == 'comp':
+                    got_comp += 1
+    out = []
+    if got_par > parents * clients:
+        out.append(dict(signature='parent-link-echoed', origin=origin,
+                        what='%d EntityParented messages were received for %d set-parent operations in a session of %d clients (at most one per client and operation)' % (got_par, parents, clients)))
+    if got_comp > writes * clients:
+        out.append(dict(signature='component-update-echoed', origin=origin,
+                        what='%d ComponentUpdated messages were received for %d component writes in a session of %d clients (at most one per client and write)' % (got_comp, writes, clients)))
+    return out
+
+
 COMPANIONS = {2: [100], 3: [101, 102], 4: [103, 104], 5: [105], 6: [106, 107, 108, 109]}
 
 
